@@ -196,7 +196,7 @@ def run_shard(shard, ctx):
                 toks = list(s.tokens)
                 for k, t in enumerate(toks):
                     if t.startswith('"') and len(t) >= 2 and rng.random() < 0.15:
-                        toks[k] = '"' + rng.choice(["\\\n", "\\ ", "\\/", "\\q", "\\;", "\\\r\n"]) + t[1:]
+                        toks[k] = '"' + rng.choice(["\\\n", "\\ ", "\\/", "\\q", "\\;", "\\\r\n", "function f() {\n\n return 1; }", "{\n \n", "a {\n\t\nb", "}\n\n{"]) + t[1:]
                 s.tokens = toks
             text = PR.render(s.tokens, rng)
             via_path = rng.random() < 0.25
